@@ -737,6 +737,22 @@ class Verifier:
                 res.replays.append(rep)
             else:
                 res.unreplayed.append(vc)
+        # paths that left the verifiable subset stay undecided - but the contract still runs natively: look
+        # for an input of such a path on which the real code fails one of the contract's clauses
+        budget = 3
+        for pid_, why in cr.inapplicable:
+            inputs = cr.inapplicable_inputs.get(pid_)
+            if not inputs or budget == 0:
+                continue
+            budget -= 1
+
+            import types
+            rep = self._native_search(contract, types.SimpleNamespace(name=None, case=f"{name}/path{pid_}", model=None),
+                                      inputs, budget_s=1.5)
+            if rep is not None:
+                rep["found_by"] = f"native search on a path outside the verifiable subset ({why})"
+                if not any(r_["obligation"] == rep["obligation"] for r_ in res.replays):
+                    res.replays.append(rep)
         # CPython cross-check of the executor on every completed path
         if crosscheck:
             for o in cr.outcomes:
@@ -767,7 +783,7 @@ class Verifier:
         (boundary-biased, and one-input mutations of the model point).  A hit is a genuine failing
         input of the real code; no hit leaves the obligation 'refuted without native witness'."""
         import random
-        rng = random.Random(int(os.environ.get("VERIF_SEED", "0")) * 7919 + len(vc.name))
+        rng = random.Random(int(os.environ.get("VERIF_SEED", "0")) * 7919 + len(vc.name or ""))
         try:
             base = valuation_from_model(vc.model, inputs) if vc.model is not None else None
         except Exception:
@@ -844,6 +860,9 @@ class Verifier:
             except Exception:
                 continue
             failed = [n for n, ok in c.checks if not ok]
+            if vc.name is None and (failed or c.exception):
+                return {"obligation": failed[0] if failed else "no_exception", "case": vc.case, "valuation": _jsonable(val),
+                        "failed_checks": failed, "exception": c.exception, "results": [_short(r) for r in c.results]}
             if vc.name in failed or (vc.name == "no_exception" and c.exception):
                 return {"obligation": vc.name, "case": vc.case, "valuation": _jsonable(val),
                         "failed_checks": failed, "exception": c.exception,
